@@ -31,7 +31,8 @@ def run_calendar(case):
         published[t] = float(t.toordinal())
         return published[t]
 
-    source = fm.components.CallbackGenerator(callbacks={"Out": (gen, fm.Info(time=None, grid=fm.NoGrid()))}, start=start, step=timedelta(days=1))
+    src_info = fm.Info(time=None, grid=fm.NoGrid())
+    source = fm.components.CallbackGenerator(callbacks={"Out": (gen, src_info)}, start=start, step=timedelta(days=1))
     consumer = fm.components.DebugConsumer(inputs={"In": fm.Info(time=None, grid=fm.NoGrid())}, callbacks={"In": lambda _n, d, t: received.append((t, float(fm.data.get_magnitude(d).reshape(-1)[0])))}, start=start, step=_rd(case["step"]))
     comp = fm.Composition([source, consumer] if case["order"] == "PC" else [consumer, source], print_log=False, log_level=50)
     link = source.outputs["Out"]
@@ -42,6 +43,20 @@ def run_calendar(case):
     link >> consumer.inputs["In"]
     res = dict(n=1, states=0, transitions=0, traces=1, nontrivial=0, counters={"calendar_runs": 1}, violations=[])
     try:
+        if case.get("shared"):
+            # the user's Info objects live on: after this composition is connected, the SAME Info objects describe the slots of a second
+            # composition that starts later (built, connected, optionally run first); the first composition's deliveries must not change
+            comp.connect(start)
+            res["counters"]["shared_info_runs"] = 1
+            later = start + timedelta(days=20)
+            src2 = fm.components.CallbackGenerator(callbacks={"Out": (lambda t: -1.0, src_info)}, start=later, step=timedelta(days=1))
+            con2 = fm.components.DebugConsumer(inputs={"In": fm.Info(time=None, grid=fm.NoGrid())}, start=later, step=timedelta(days=3))
+            comp2 = fm.Composition([src2, con2], print_log=False, log_level=50)
+            src2.outputs["Out"] >> fm.adapters.DelayFixed(timedelta(days=2)) >> con2.inputs["In"]
+            if case["shared"] == "info_run":
+                comp2.run(end_time=later + timedelta(days=9))
+            else:
+                comp2.connect(later)
         comp.run(end_time=end)
     except Exception as e:  # noqa
         res["violations"].append(viol(dict(kind="calendar_delay", how="exception", error=type(e).__name__), f"calendar delays {case['delays']} step {case['step']} start {case['start']}: {type(e).__name__}: {str(e)[:150]}", dict(case, calendar=True)))
@@ -69,7 +84,11 @@ def calendar_cases(tier):
               [dict(rd=dict(months=1)), dict(rd=dict(months=1))], [dict(td=dict(days=30))], [dict(rd=dict(weeks=2))]]
     steps = [dict(rd=dict(months=1)), dict(td=dict(days=11)), dict(rd=dict(days=45))] + ([] if q else [dict(rd=dict(months=2)), dict(td=dict(days=1))])
     starts = [(2001, 1, 1), (2004, 1, 31), (2003, 12, 15)] + ([] if q else [(2000, 2, 29), (2001, 3, 31)])
-    return [dict(calendar=True, start=list(st), days=300 if q else 500, delays=d, step=sp, order=o, scale=sc) for st in starts for d in delays for sp in steps for o in ("PC", "CP") for sc in ((False,) if q else (False, True))]
+    out = [dict(calendar=True, start=list(st), days=300 if q else 500, delays=d, step=sp, order=o, scale=sc) for st in starts for d in delays for sp in steps for o in ("PC", "CP") for sc in ((False,) if q else (False, True))]
+    # Info objects shared with a second, later composition (connected / run in between)
+    out += [dict(calendar=True, start=list(st), days=60, delays=d, step=sp, order=o, scale=False, shared=sh) for st in starts[:2] for d in ([dict(td=dict(days=2))], [dict(rd=dict(months=1))], [dict(td=dict(days=2)), dict(td=dict(days=3))])
+            for sp in (dict(td=dict(days=5)), dict(td=dict(days=11))) for o in ("PC", "CP") for sh in ("info", "info_run")]
+    return out
 
 
 def replay(case):
